@@ -27,13 +27,25 @@ func namesJ(v []string) []interface{} {
 
 // observe records all four observers of an item next to its representation-level projection.
 func observe(it ast.ItemNode) J {
-	return J{"abs": projItem(it), "string": chars(fmt.Sprint(it)), "bytes": bytesJ(it.ToBytes()),
-		"vars": namesJ(it.Variables()), "size": it.Size()}
+	v := it.Variables()
+	vj := namesJ(v)
+	scribbleNames(v) // what an observer hands out is the caller's to change
+	b := it.ToBytes()
+	bj := bytesJ(b)
+	scribbleBytes(b)
+	return J{"abs": projItem(it), "string": chars(fmt.Sprint(it)), "bytes": bj, "bytes2": bytesJ(it.ToBytes()),
+		"vars": vj, "vars2": namesJ(it.Variables()), "size": it.Size()}
 }
 
 func observeMsg(m *ast.DataMessage) J {
-	return J{"abs": projMsg(m), "string": chars(m.String()), "bytes": bytesJ(m.ToBytes()),
-		"vars": namesJ(m.Variables()), "header": chars(m.Header())}
+	v := m.Variables()
+	vj := namesJ(v)
+	scribbleNames(v)
+	b := m.ToBytes()
+	bj := bytesJ(b)
+	scribbleBytes(b)
+	return J{"abs": projMsg(m), "string": textChars(m.String()), "bytes": bj, "bytes2": bytesJ(m.ToBytes()),
+		"vars": vj, "vars2": namesJ(m.Variables()), "header": textChars(m.Header())}
 }
 
 // treeEll is tree() with ellipses: a list with at least one item may get one ellipsis after its first item.
@@ -326,8 +338,20 @@ func driverFill(c *Ctx) {
 		// the same through a message: bytes after completing
 		gm := g.header(true)
 		var mb, db J = J{"outcome": "refused"}, J{"outcome": "refused"}
+		order := g.pick(3)
 		try(func() {
-			m := ast.NewDataMessage(gm.Name, gm.S, gm.F, 2, gm.Dir, t).FillVariables(sigma).SetWaitBit(gm.W == 1).SetSessionIDAndSystemBytes(gm.Sid, gm.Sys)
+			m := ast.NewDataMessage(gm.Name, gm.S, gm.F, 2, gm.Dir, t)
+			switch order { // the producers in every order
+			case 0:
+				m = m.FillVariables(sigma).SetWaitBit(gm.W == 1).SetSessionIDAndSystemBytes(gm.Sid, gm.Sys)
+			case 1:
+				m = m.SetSessionIDAndSystemBytes(gm.Sid, gm.Sys).FillVariables(sigma).SetWaitBit(gm.W == 1)
+			default:
+				m = m.SetWaitBit(gm.W == 1).SetSessionIDAndSystemBytes(gm.Sid, gm.Sys)
+				for _, st := range steps {
+					m = m.FillVariables(st)
+				}
+			}
 			mb = J{"outcome": "ok", "bytes": bytesJ(m.ToBytes()), "vars": namesJ(m.Variables())}
 		})
 		try(func() {
@@ -584,7 +608,11 @@ func driverCtor(c *Ctx) {
 		idx++
 	}
 	// variable names (array node, list, ASCII variable) and ellipsis placement
-	names := []string{"a", "_", "a1", "1a", "", "a b", "a[0]", "a[0][12]", "a[", "a[]", "a[x]", "a]", "a.b", "...", "...[0]", "...[1][2]", "....", "..", "é", "a-b", "T", "L", "0b1"}
+	names := []string{"a", "_", "a1", "1a", "", "a b", "a[0]", "a[0][12]", "a[", "a[]", "a[x]", "a]", "a.b", "...", "...[0]", "...[1][2]", "....", "..", "é", "a-b", "T", "L", "0b1",
+		"a[1]x", "a[-1]", "a[1 ]", "a\n", "...[x]", "...[]", "...[12]"}
+	for ch := 0; ch < 128; ch++ { // every 7-bit character as first and as second character
+		names = append(names, string(rune(ch))+"x", "x"+string(rune(ch)))
+	}
 	for _, n := range names {
 		if c.want(idx) {
 			ev := J{"ev": "ctorname", "name": chars(n)}
@@ -595,6 +623,17 @@ func driverCtor(c *Ctx) {
 				"list2":  func() ast.ItemNode { return ast.NewListNode(ast.NewUintNode(1, 1), n) },
 				"dup":    func() ast.ItemNode { return ast.NewListNode(n, ast.NewUintNode(1, n)) },
 				"twoell": func() ast.ItemNode { return ast.NewListNode(ast.NewUintNode(1, 1), n, "...[7]") },
+				// the same name twice anywhere in a tree: two children, two grandchildren, by renaming, by inserting an item
+				"dupsib": func() ast.ItemNode { return ast.NewListNode(ast.NewUintNode(1, n), ast.NewIntNode(2, n)) },
+				"dupcousin": func() ast.ItemNode {
+					return ast.NewListNode(ast.NewListNode(ast.NewBooleanNode(n)), ast.NewListNode(ast.NewASCIINodeVariable(n, 0, -1)))
+				},
+				"duprename": func() ast.ItemNode {
+					return ast.NewListNode(ast.NewUintNode(1, "zz9"), ast.NewIntNode(2, n)).FillVariables(map[string]interface{}{"zz9": n})
+				},
+				"dupinsert": func() ast.ItemNode {
+					return ast.NewListNode("zz9", ast.NewIntNode(2, n)).FillVariables(map[string]interface{}{"zz9": ast.NewFloatNode(4, n)})
+				},
 			} {
 				res, _ := outcomeOf(f)
 				ev[k] = res["outcome"]
